@@ -27,7 +27,7 @@ PID = "C05"
 UNIT = "bc"
 
 PINNED = [
-    "encode_decode", "decode_unused_is_error", "decode_total_on_valid_ops", "encode_total",
+    "encode_decode", "decode_unused_is_error", "decode_total_on_valid_ops", "encode_total", "varint_roundtrip", "varint_first_byte_roundtrip",
     "wf_chunk_sound", "wf_chunk_reach_instruction_start", "depths_ok_sound",
 ]
 
@@ -110,6 +110,33 @@ def compare_streams(info, real, model):
     if real.get("reader_error") or real.get("reader_panic"):
         return f"real reader error {real.get('reader_error') or real.get('reader_panic')}, model decodes to the end"
     return None
+
+
+CONST_FIELDS = {"LoadFloat": ("constant", "f"), "LoadInt": ("constant", "i"), "LoadString": ("constant", "s"),
+                "LoadNonLocal": ("constant", "s"), "Access": ("key", "s"), "TryAccess": ("key", "s"), "Debug": ("constant", "s"),
+                "AssertType": ("type_string", "s"), "CheckType": ("type_string", "s")}
+
+
+def constant_kinds(r):
+    """C05 'every constant reference is in range and of the right kind', on the REAL reader's instructions and the
+    real constant pool (kinds: f/i/s per constant)"""
+    kinds = r.get("kinds", "")
+    bad = []
+    for ins in r.get("instrs", []):
+        refs = []
+        if ins[1] in CONST_FIELDS:
+            fld, k = CONST_FIELDS[ins[1]]
+            refs.append((ins[2][fld], k))
+        elif ins[1] == "StringPush" and ins[2]["format_options"] != -1 and ins[2]["format_options"][3] != -1:
+            refs.append((ins[2]["format_options"][3], "s"))
+        for idx, k in refs:
+            if idx >= len(kinds):
+                bad.append(f"ip {ins[0]} {ins[1]}: constant {idx} out of range (pool has {len(kinds)})")
+            elif kinds[idx] != k:
+                bad.append(f"ip {ins[0]} {ins[1]}: constant {idx} is of kind '{kinds[idx]}', expected '{k}'")
+            if len(bad) >= 5:
+                return bad
+    return bad
 
 
 M61 = 2305843009213693951
@@ -683,10 +710,35 @@ def jump_scaled(tier, ovh):
     # the C05a witness: must now be a compile error
     out.append({"tag": "loop-body-14000", "src": "x = 0\nloop\n" + "  x = x + 1\n" * 14000 + "  if x > 20000\n    break\nx\n",
                 "expect": "compile-error"})
-    nconst = 16500 if tier == "quick" else 40000
-    out.append({"tag": f"constants-{nconst}", "src": "y = [\n" + "".join(f"  {1000000 + i},\n" for i in range(nconst)) + "]\ny.size()\n",
-                "expect": "compiled"})
+    for nints in ([118, 16374] if tier == "quick" else [100, 118, 123, 16360, 16374, 16379, 16380, 16381, 16500, 40000]):
+        out.append(many_constants(nints))
     return out
+
+
+def many_constants(nints):
+    """a program whose constant pool has `nints` distinct integer constants first, then constants of every kind
+    (int, float, string, identifier of a non-local, type-hint string, map key) interned right after them, so that
+    for nints near 127 / 16383 the late constant indices straddle a var-u32 byte boundary.  Its value lists what
+    every late load produced: it must equal the literals written (expect_result, canonical rendering)."""
+    import struct
+    base = 1000000
+    lines = ["y = ["] + [f"  {base + i}," for i in range(nints)] + ["]"]
+    lines += [
+        "late_int = 7000001",
+        "late_float = 12345.5",
+        "late_str = 'zebra_late'",
+        "export late_exported = 9000009",
+        "f = || late_exported",
+        "let typed: Number = 8000008",
+        "m = {stripes_late: 4200042}",
+        "g = |s: String| s",
+        "other = 'quagga_late'",
+        f"(y[{nints // 2}], y[0], y[{nints - 1}], late_int, late_float, late_str, f(), typed, m.stripes_late, g(other), 7000001, 'zebra_late')",
+    ]
+    fl = "d%016x" % struct.unpack("<Q", struct.pack("<d", 12345.5))[0]
+    exp = f'T(i{base + nints // 2},i{base},i{base + nints - 1},i7000001,{fl},s"zebra_late",i9000009,i8000008,i4200042,' \
+          f's"quagga_late",i7000001,s"zebra_late")'
+    return {"tag": f"constants-{nints}", "src": "\n".join(lines) + "\n", "expect": "compiled", "expect_result": exp}
 
 
 def gen_cases(tier, seed, ovh):
@@ -802,9 +854,6 @@ C05_FAULT_RE = re.compile(r"Out of bounds access|index out of bounds|out of rang
                           r"Unexpected opcode|Instruction access out of bounds|attempt to subtract with overflow")
 
 KNOWN_TEXT = {
-    "C05f": "C05f a function literal whose value is discarded (expression statement that is not the last of its block) "
-            "compiles its BODY inline without the Function instruction: NewFrame/Return execute in the enclosing frame "
-            "(early return, or `index out of bounds` panic in vm.rs set_register)",
     "C05d": "C05d break/continue/return out of a try block or a half-built list/tuple/string leaves the try / "
             "builder depth unbalanced (clause 5)",
 }
@@ -946,6 +995,11 @@ def run(tier, seed):
         # clause 5, independent Python dataflow on the real instruction list (cross-check of depths_ok)
         if r.get("instrs") and len(r["instrs"]) < 30000:
             py5[i] = clause5(r["instrs"])
+        ck = constant_kinds(r)
+        if ck:
+            failures.append((len(c["src"]), i, "constant-kind", {"problems": ck, "run": r.get("run")}))
+        if c.get("expect_result") and (r.get("run") or {}).get("result") != c["expect_result"]:
+            failures.append((len(c["src"]), i, "loaded-values", {"expected": c["expect_result"], "run": r.get("run")}))
         if c["origin"] == "jump-scaled" and c.get("intended"):
             names = ("JumpBack",) if c["kind"] == "back" else ("JumpIfFalse", "Function")
             offs = [ins[2].get("offset", ins[2].get("size")) for ins in r.get("instrs", []) if ins[1] in names]
@@ -1033,6 +1087,41 @@ def run(tier, seed):
         else:
             failures.append((len(cases[i]["src"]), i, what, rr))
 
+    # ---- var-u32 boundary values: bytes produced by the MODEL's encoder, read by the REAL reader
+    if model_ok and info:
+        vb = [0, 1, 127, 128, 129, 16383, 16384, 16385, 2097151, 2097152, 2097153, 268435455, 268435456, 4294967295]
+        probes = []
+        for v in vb:
+            probes += [("LoadInt", f"Instr OP_LoadInt [3; {v}]", {"register": 3, "constant": v}),
+                       ("LoadString", f"Instr OP_LoadString [3; {v}]", {"register": 3, "constant": v}),
+                       ("MakeMap", f"Instr OP_MakeMap [3; {v}]", {"register": 3, "size_hint": v}),
+                       ("CheckType", f"Instr OP_CheckType [3; {v}; 513]", {"value": 3, "allow_null": 0, "type_string": v, "jump_offset": 513}),
+                       ("Access", f"Instr OP_Access [3; 4; {v}]", {"register": 3, "value": 4, "key": v}),
+                       ("TryAccess", f"Instr OP_TryAccess [3; 4; {v}; 513]", {"register": 3, "value": 4, "key": v, "jump_offset": 513}),
+                       ("SequenceStart", f"Instr OP_SequenceStart [{v}]", {"size_hint": v}),
+                       ("StringStart", f"Instr OP_StringStart [{v}]", {"size_hint": v})]
+        try:
+            enc = C.coq_eval(UNIT, HEADER, [f"match encode ({t}) with Some bs => bs | None => [] end" for _, t, _ in probes],
+                             tag="c05v", per_shard=200)
+            cf = os.path.join(C.BUILD, "cases", f"c05-raw-{os.getpid()}.jsonl")
+            with open(cf, "w") as f:
+                for bs in enc:
+                    f.write(json.dumps({"raw": bs}) + "\n")
+            rc, out = C.sh([binp, cf], timeout=600)
+            os.remove(cf)
+            got = [json.loads(l) for l in out.splitlines() if l.startswith("{")]
+            vbad = []
+            for (name, term, fields), bs, g in zip(probes, enc, got):
+                ins = g.get("instrs") or []
+                if not bs or len(ins) != 1 or ins[0][1] != name or ins[0][2] != fields or ins[0][3] != len(bs):
+                    vbad.append(f"{term}: model encoding {bs}, real reader yields {json.dumps(g)[:160]}")
+            chk.oblige("corr:var-u32 boundary values (model encoder -> real InstructionReader), 14 values x 8 instruction forms",
+                       len(got) == len(probes) and not vbad, "; ".join(vbad[:3]))
+            if vbad:
+                chk.log(f"{len(vbad)} var-u32 boundary probes disagree; first: {vbad[0]}")
+        except RuntimeError as e:
+            chk.oblige("corr:var-u32 boundary values", False, str(e)[-300:])
+
     # ---- verdict
     if failures:
         failures.sort(key=lambda x: (x[0], x[1]))
@@ -1041,7 +1130,7 @@ def run(tier, seed):
         for f in failures:
             kinds[f[2]] = kinds.get(f[2], 0) + 1
         chk.violation("input", {"kind": "input", "src": cases[i]["src"], "origin": cases[i]["origin"],
-                                "tag": cases[i].get("tag"), "expect": cases[i].get("expect"), "clause_failed": what, "detail": detail,
+                                "tag": cases[i].get("tag"), "expect": cases[i].get("expect"), "expect_result": cases[i].get("expect_result"), "clause_failed": what, "detail": detail,
                                 "others": kinds, "how_to_rerun": "./check C05 --replay <this file>"})
         chk.log(f"{len(failures)} inputs violate C05 ({kinds}); smallest ({what}): {cases[i]['src'][:200]!r} {json.dumps(detail)[:300]}")
     broken = [o for o in chk.obligations if not o[1]]
@@ -1100,6 +1189,10 @@ def replay(path, args):
         bad.append(f"a program within the limits was rejected: {r.get('msg', 'parse error')[:200]}")
     if "panic" in r and not known_class(case, r, "panic"):
         bad.append("panic while compiling")
+    for pb in constant_kinds(r):
+        bad.append("constant reference: " + pb)
+    if data.get("expect_result") and (r.get("run") or {}).get("result") != data["expect_result"]:
+        bad.append(f"loaded values differ from the literals written: expected {data['expect_result']}, got {r.get('run')}")
     if "img" in r:
         imgs = set(r["imgs"]) | ({res2[0].get("img")} if ok2 and res2[0] else set())
         if len(imgs) > 1 and not known_class(case, r, "nondet"):
